@@ -284,7 +284,7 @@ class Budget:
         self.target = target  # "colr" | "otsvg" | "exact"
         self.upem = upem
         # the tolerance is enforced per coordinate (|dx| <= t and |dy| <= t): sqrt(2) * t as a distance
-        self.reuse = max(0.0, reuse_tolerance) * 1.4143
+        self.reuse = max(0.0, reuse_tolerance) * 1.4143 * 1.05  # 5% slack: the check is made on control points, before further rounding
         # The flag documents the tolerance in source units, the code applies it to font-unit paths: allow the larger.
         self.scale = max(1.0, font_scale)
         self.cff = cff
